@@ -75,6 +75,7 @@ def rule_E13(run: Run, prog: Program, max_len: int = 3) -> int:
     n = 0
     wrong: dict[str, list[str]] = {}
     unsupported: dict[str, int] = {}
+    samples_: list[str] = []
     total_by_class: dict[str, int] = {}
     for rank, kinds, want in indexspec.domain(max_len=max_len, ranks=(2, 3, 4)):
         n += 1
@@ -91,10 +92,16 @@ def rule_E13(run: Run, prog: Program, max_len: int = 3) -> int:
             got = f"raises {e.name}"
         if isinstance(got, tuple):
             got = list(got)
+        if len(samples_) < 6 and (n % 397 == 1):
+            samples_.append(f"{show(kinds)} on a rank-{rank} tensor: interpreted mapping {got}, numpy's rule {want}")
         if got != want:
             wrong.setdefault(cl, []).append(f"{show(kinds)} on a rank-{rank} tensor: mapping {got}, numpy gives {want}")
     run.stats["index_tuples"] = n
     run.stats["index_tuples_by_class"] = total_by_class
+    if not hasattr(run, "enumerated"):
+        run.enumerated, run.case_samples = {}, {}
+    run.enumerated["E13"] = n - sum(unsupported.values())
+    run.case_samples["E13"] = samples_
     loc = fn.loc
     if unsupported:
         worst = sorted(unsupported.items(), key=lambda kv: -kv[1])[:3]
@@ -291,6 +298,9 @@ def rule_E15(run: Run, prog: Program) -> int:
             attempt("tensor_product", lambda a=a, b=b: interp().call(fn_tp, [a, b]), {"a": a, "b": b},
                     f"a (covariant {ca}, contravariant {da}) x b (covariant {cb}, contravariant {db})")
     run.stats["index_type_cases"] = counts
+    if not hasattr(run, "enumerated"):
+        run.enumerated, run.case_samples = {}, {}
+    run.enumerated["E15"] = n - sum(sum(v.values()) for v in unsupported.values())
     loc_of = {"transpose": fn_t, "tensor_product": fn_tp, "copy": fn_copy, "__getitem__": fn_get, "expand_dims": fn_exp, "arithmetic": ops.get("__add__"), "constructor": init}
     for op in sorted(counts):
         fn = loc_of.get(op)
@@ -395,6 +405,9 @@ def rule_E16(run: Run, prog: Program) -> int:
                         run.add("E16", C.name, what, VIOLATION, f"{what}: " + "; ".join(problems), get.loc if get else C.loc)
                     else:
                         run.add("E16", C.name, what, PROVEN, f"{rc.name} with the element's index types" + (f" and {kw}" if kw else ""), get.loc if get else C.loc)
+    if not hasattr(run, "enumerated"):
+        run.enumerated, run.case_samples = {}, {}
+    run.enumerated["E16"] = sum(1 for o in run.obligations if o.rule == "E16" and o.verdict in (PROVEN, VIOLATION))
     return n
 
 
